@@ -56,3 +56,5 @@ impl Progress {
         }
     }
 }
+
+pub use serde;
